@@ -24,6 +24,10 @@ use std::time::Duration;
 const WORDS: &[&str] = &["foo", "bar", "foobar", "baz", "a/b", "Foo Bar", "xyz", "fo", "b", "ab$", "f-o-o", "oof", "barfoo", "BAR", "b a r", "zzz"];
 
 fn col_text(v: u32, j: usize) -> String {
+    // one item in six has an empty column (never the only column's... also allowed: an empty haystack is a legal item)
+    if (v as usize + j * 5) % 6 == 2 {
+        return String::new();
+    }
     WORDS[((v as usize) * 7 + j * 3) % WORDS.len()].to_string()
 }
 
@@ -449,7 +453,7 @@ fn run_history(rng: &mut Rng, mode: &str, _k: usize) -> String {
                 let forced = force_text.take();
                 let c = forced.as_ref().map(|f| f.0).unwrap_or(rng.below(cols as u64) as usize);
                 let old = h.cur_text[c].clone();
-                let (new, append) = if let Some((_, t, a)) = forced { (t, a) } else { match rng.below(6) {
+                let (new, append) = if let Some((_, t, a)) = forced { (t, a) } else { match rng.below(7) {
                     0 => (String::new(), false),
                     1 => {
                         let mut t = old.clone();
@@ -457,6 +461,14 @@ fn run_history(rng: &mut Rng, mode: &str, _k: usize) -> String {
                         (t, false)
                     }
                     2 => (WORDS[rng.below(8) as usize].to_string(), false),
+                    3 => {
+                        // a pattern of negated atoms only (matches items whose column is empty, too)
+                        let mut t = format!("!{}", WORDS[rng.below(8) as usize]);
+                        if rng.chance(1, 2) {
+                            t.push_str(" !zz");
+                        }
+                        (t, false)
+                    }
                     _ => {
                         let mut t = old.clone();
                         t.push_str(typing[rng.below(typing.len() as u64) as usize]);
@@ -610,7 +622,16 @@ fn run_history(rng: &mut Rng, mode: &str, _k: usize) -> String {
         all.dedup();
         for v in all {
             let colsv: Vec<Utf32String> = (0..cols).map(|j| col_text(v, j).into()).collect();
-            if let Some(s) = mp.score(&colsv, &mut matcher) {
+            // independent of `MultiPattern::score`: the documented meaning, column by column with the matcher crate's
+            // `Pattern::score` (C15), summed; no match if any column's pattern does not match
+            let mut total: Option<u32> = Some(0);
+            for c in 0..cols {
+                match mp.column_pattern(c).score(colsv[c].slice(..), &mut matcher) {
+                    Some(x) => total = total.map(|t| t + x),
+                    None => total = None,
+                }
+            }
+            if let Some(s) = total {
                 scores.push(format!("{pid}:{v}:{s}"));
             }
         }
